@@ -535,6 +535,10 @@ def detect_adt_renames(facts):
     for o in missing:
         mod = o.rsplit("::", 1)[0]
         cands = [n for n in new if n.rsplit("::", 1)[0] == mod and cur[n]["kind"] == inv[o]["kind"] and names_only(cur[n]) == names_only(inv[o])]
+        if not cands:
+            # moved to another module of the same crate under the same name (e.g. into a new private file)
+            cands = [n for n in new if n.split("::")[0] == o.split("::")[0] and n.rsplit("::", 1)[1] == o.rsplit("::", 1)[1]
+                     and cur[n]["kind"] == inv[o]["kind"] and names_only(cur[n]) == names_only(inv[o])]
         hinted = [n for n in cands if hints.get(o.rsplit("::", 1)[1]) == n.rsplit("::", 1)[1]]
         if len(hinted) == 1:
             cands = hinted
@@ -626,7 +630,229 @@ def apply_field_renames(facts, log):
         b._defs = None
 
 
+# ------------------------------------------------------------------ Option / Result combinators with an effectful closure
+_COMB = {
+    # name: (receiver adt, variant whose payload is handed to the closure, how the closure result is wrapped, what the other variant becomes)
+    ("core::option::Option", "map"): ("Some", "Some", "none"),
+    ("core::option::Option", "and_then"): ("Some", None, "none"),
+    ("core::option::Option", "or_else"): ("None", None, "same"),
+    ("core::option::Option", "unwrap_or_else"): ("None", None, "payload"),
+    ("core::option::Option", "ok_or_else"): ("None", "Err", "ok-payload"),
+    ("core::result::Result", "map"): ("Ok", "Ok", "same"),
+    ("core::result::Result", "map_err"): ("Err", "Err", "same"),
+    ("core::result::Result", "and_then"): ("Ok", None, "same"),
+    ("core::result::Result", "or_else"): ("Err", None, "same"),
+    ("core::result::Result", "unwrap_or_else"): ("Err", None, "payload"),
+}
+_VIDX = {"None": 0, "Some": 1, "Ok": 0, "Err": 1}
+_OTHER = {"None": "Some", "Some": "None", "Ok": "Err", "Err": "Ok"}
+_EFFECT_NAMES = {"send", "try_send", "fetch_add", "fetch_sub", "fetch_update", "compare_exchange", "compare_exchange_weak", "swap", "store",
+                 "wake", "wake_by_ref", "register", "insert", "remove", "start_send", "poll_ready", "poll_flush", "poll_close", "close",
+                 "push", "push_back", "extend", "consume", "advance", "write_all", "poll_write", "poll_shutdown", "take", "replace"}
+
+
+def _closure_def_of(b, op):
+    """def path of the closure passed as operand `op` in body `b` (const closure or a local assigned a Closure aggregate)."""
+    if op.get("k") == "const":
+        return op.get("closure")
+    if op.get("k") in ("move", "copy") and not op["p"].get("p"):
+        l = op["p"]["l"]
+        for blk in b.j["blocks"]:
+            for st in blk["stmts"]:
+                if st["k"] == "Assign" and st["lhs"] == {"l": l} and st["rv"]["k"] == "Aggregate" and st["rv"]["agg"].get("a") == "Closure":
+                    return st["rv"]["agg"].get("def")
+    return None
+
+
+def _effectful(facts, kb):
+    for _bi, t in kb.calls():
+        fn = t["func"].get("fn") if isinstance(t["func"], dict) else None
+        if not fn:
+            return True
+        d = fn.get("res") or fn.get("dp")
+        if d in facts.by_dp and facts.by_dp[d] is not kb:
+            return True
+        if fn.get("name") in _EFFECT_NAMES:
+            return True
+    return False
+
+
+def comb_sites(facts, crate, b):
+    out = []
+    for bi, t in b.calls():
+        fn = t["func"].get("fn") if isinstance(t["func"], dict) else None
+        if not fn or len(t["args"]) != 2 or t.get("t") is None:
+            continue
+        dp = fn.get("dp") or ""
+        adt = "core::option::Option" if dp.startswith("core::option::") else "core::result::Result" if dp.startswith("core::result::") else None
+        if adt is None or (adt, fn.get("name")) not in _COMB:
+            continue
+        cd = _closure_def_of(b, t["args"][1])
+        kb = facts.by_dp.get(cd) if cd else None
+        if kb is None or kb not in crate.bodies or kb.j.get("coroutine") or len(kb.blocks) > MAX_BLOCKS:
+            continue
+        out.append((bi, adt, fn["name"], kb))
+    return out
+
+
+def comb_fp(name, kb):
+    """Edit-stable fingerprint of a combinator site: the combinator and what its closure calls / builds."""
+    calls = sorted(set((t["func"].get("fn") or {}).get("name", "?") for _bi, t in kb.calls() if isinstance(t["func"], dict)))
+    aggs = sorted(set("%s::%s" % ((st["rv"]["agg"].get("adt") or st["rv"]["agg"].get("a") or "").split("::")[-1], st["rv"]["agg"].get("variant"))
+                      for blk in kb.j["blocks"] for st in blk["stmts"]
+                      if st["k"] == "Assign" and st["rv"]["k"] == "Aggregate" and st["rv"]["agg"].get("a") == "Adt"))
+    return "%s|%s|%s" % (name, ",".join(calls), ",".join(aggs))
+
+
+def comb_fps(facts, crate, fnb):
+    out = []
+    for b in crate.bodies:
+        if b is fnb or b.path.startswith(fnb.path + "::{"):
+            out += [comb_fp(name, kb) for _bi, _adt, name, kb in comb_sites(facts, crate, b)]
+    return sorted(out)
+
+
+def _agg(adt, variant, ops):
+    return {"k": "Aggregate", "agg": {"a": "Adt", "adt": adt, "variant": variant, "vi": _VIDX[variant], "fields": ["0"] if ops else [], "targs": []}, "ops": ops}
+
+
+def inline_combinator(j, bi, adt, name, kj):
+    """Rewrite `dest = recv.<name>(closure)` at block `bi` of body JSON `j` into the explicit match, with the closure body `kj` inlined."""
+    act, wrap, other = _COMB[(adt, name)]
+    pas = _OTHER[act]
+    blk = j["blocks"][bi]
+    call = blk["term"]
+    loc = call["loc"]
+    nl = len(j["locals"])
+    recv_l, discr_l, pay_l, env_l, res_l = nl, nl + 1, nl + 2, nl + 3, nl + 4
+    rty = {"s": "_", "adt": adt, "targs": []}
+    a0 = call["args"][0]
+    if a0.get("k") in ("move", "copy") and not a0["p"].get("p"):
+        rty = dict(j["locals"][a0["p"]["l"]])
+    j["locals"] = j["locals"] + [rty, {"s": "isize"}, {"s": "_"}, {"s": "_"}, {"s": "_"}]
+    blk["stmts"].append({"k": "Assign", "lhs": {"l": recv_l}, "rv": {"k": "Use", "ops": [a0]}, "loc": loc})
+    blk["stmts"].append({"k": "Assign", "lhs": {"l": discr_l}, "rv": {"k": "Discriminant", "place": {"l": recv_l}}, "loc": loc})
+    b_act, b_act2, b_pas = len(j["blocks"]), len(j["blocks"]) + 1, len(j["blocks"]) + 2
+    tgt = {_VIDX[act]: b_act, _VIDX[pas]: b_pas}
+    blk["term"] = {"k": "SwitchInt", "discr": {"k": "move", "p": {"l": discr_l}}, "targets": [[0, tgt[0]]], "otherwise": tgt[1], "loc": loc,
+                   "combinator": name}
+    payload = lambda v: {"k": "move", "p": {"l": recv_l, "p": [{"as": v, "v": _VIDX[v]}, {"f": "0", "i": 0, "o": adt}]}}
+    # active arm: call the closure (then inlined)
+    st = []
+    clo = call["args"][1]
+    cargs = []
+    kargc = kj["argc"]
+    if kargc >= 1:
+        if kj["locals"][1]["s"].startswith("&") and clo.get("k") in ("move", "copy"):
+            st.append({"k": "Assign", "lhs": {"l": env_l}, "rv": {"k": "Ref", "mut": kj["locals"][1]["s"].startswith("&mut"), "place": clo["p"]}, "loc": loc})
+            cargs.append({"k": "move", "p": {"l": env_l}})
+        else:
+            cargs.append(clo)
+    if act in ("Some", "Ok", "Err") and kargc >= 2:
+        st.append({"k": "Assign", "lhs": {"l": pay_l}, "rv": {"k": "Use", "ops": [payload(act)]}, "loc": loc})
+        cargs.append({"k": "move", "p": {"l": pay_l}})
+    j["blocks"].append({"cleanup": False, "stmts": st,
+                        "term": {"k": "Call", "func": {"k": "const", "fn": {"dp": kj["dp"], "name": "{closure}", "path": kj["path"], "def": kj["dp"]}},
+                                 "args": cargs, "dest": {"l": res_l}, "t": b_act2, "unwind": call.get("unwind"), "loc": loc}})
+    res = {"k": "move", "p": {"l": res_l}}
+    rv = {"k": "Use", "ops": [res]} if wrap is None else _agg(adt if wrap in ("Some", "Ok") or adt.endswith("Result") else "core::result::Result", wrap, [res])
+    if name == "ok_or_else":
+        rv = _agg("core::result::Result", "Err", [res])
+    j["blocks"].append({"cleanup": False, "stmts": [{"k": "Assign", "lhs": call["dest"], "rv": rv, "loc": loc}],
+                        "term": {"k": "Goto", "t": call["t"], "loc": loc}})
+    # passive arm
+    if other == "none":
+        prv = _agg("core::option::Option", "None", [])
+    elif other == "same":
+        prv = {"k": "Use", "ops": [{"k": "move", "p": {"l": recv_l}}]} if name in ("or_else",) and adt.endswith("Option") else \
+            _agg(adt, pas, [payload(pas)])
+    elif other == "payload":
+        prv = {"k": "Use", "ops": [payload(pas)]}
+    else:   # ok-payload
+        prv = _agg("core::result::Result", "Ok", [payload(pas)])
+    j["blocks"].append({"cleanup": False, "stmts": [{"k": "Assign", "lhs": call["dest"], "rv": prv, "loc": loc}],
+                        "term": {"k": "Goto", "t": call["t"], "loc": loc}})
+    inline_call(j, b_act, kj)
+
+
+def comb_count(facts, crate, fnb):
+    """Number of combinator calls with an effectful closure in the logical function `fnb` (the fn item and the bodies nested in it)."""
+    n = 0
+    for b in crate.bodies:
+        if b is fnb or b.path.startswith(fnb.path + "::{"):
+            n += len(comb_sites(facts, crate, b))
+    return n
+
+
+def apply_combinators(facts, log):
+    """`opt.and_then(|x| { .. })`, `res.map(|x| ..)`, ... written where the pinned tree has an explicit match (or nothing): the combinator is
+    expanded into that match and the closure body is inlined, so path / layout rules see what happens under the variant edge it depends on.
+    Only sites the inventory does not know (by combinator + what the closure calls and builds) are touched: the pinned tree is analysed
+    as written."""
+    from collections import Counter
+    inv = inventory()
+    for crate in facts.crates.values():
+        known = inv.get(crate.name)
+        if known is None:
+            continue
+        for fnb in fn_items(crate):
+            have = Counter(comb_fps(facts, crate, fnb))
+            if not have:
+                continue
+            extra = have - Counter((known.get(fnb.path) or {}).get("combfp", []))
+            if not extra:
+                continue
+            done = 0
+            for _pass in range(12):
+                progress = False
+                for b in list(crate.bodies):
+                    if not (b is fnb or b.path.startswith(fnb.path + "::{")):
+                        continue
+                    for bi, adt, name, kb in comb_sites(facts, crate, b):
+                        fp = comb_fp(name, kb)
+                        if extra.get(fp, 0) <= 0:
+                            continue
+                        extra[fp] -= 1
+                        j = copy.deepcopy(b.j)
+                        inline_combinator(j, bi, adt, name, kb.j)
+                        nb = _rebuild(facts, crate, b, j)
+                        if kb in crate.bodies:
+                            crate.bodies.remove(kb)
+                        if nb.dp in crate.children:
+                            crate.children[nb.dp] = [x for x in crate.children[nb.dp] if x is not kb]
+                        crate.children.setdefault(nb.dp, [])
+                        _reparent(crate, kb.dp, nb.dp)
+                        if b is fnb:
+                            fnb = nb
+                        done += 1
+                        progress = True
+                        break
+                    if progress:
+                        break
+                if not progress:
+                    break
+            if done:
+                log.append("expanded %d new Option/Result combinator site(s) in %s::%s into explicit matches" % (done, crate.name, fnb.path))
+
+
 _ARITH = {"saturating_add": "Add", "wrapping_add": "Add", "saturating_sub": "Sub", "wrapping_sub": "Sub"}
+
+
+def _uses_of_local(j, l):
+    """Number of places that mention local `l` (as place base) in a body's JSON."""
+    cnt = 0
+    def rec(x):
+        nonlocal cnt
+        if isinstance(x, dict):
+            if x.get("l") == l and ("p" in x or len(x) == 1 or "ty" in x):
+                cnt += 1
+            for v in x.values():
+                rec(v)
+        elif isinstance(x, list):
+            for v in x:
+                rec(v)
+    rec(j["blocks"])
+    return cnt
 
 
 def apply_arith_methods(facts, log):
@@ -650,7 +876,18 @@ def apply_arith_methods(facts, log):
             for bi, op in sites:
                 blk = j["blocks"][bi]
                 t = blk["term"]
-                blk["stmts"].append({"k": "Assign", "lhs": t["dest"], "rv": {"k": "BinaryOp", "op": op, "ops": list(t["args"])}, "loc": t["loc"]})
+                rv = {"k": "BinaryOp", "op": op, "ops": list(t["args"])}
+                tgt = j["blocks"][t["t"]]
+                first = tgt["stmts"][0] if tgt["stmts"] else None
+                d = t["dest"]
+                moved = (first is not None and first["k"] == "Assign" and first["rv"]["k"] == "Use" and not d.get("p")
+                         and first["rv"]["ops"][0].get("k") == "move" and first["rv"]["ops"][0]["p"] == {"l": d["l"]}
+                         and _uses_of_local(j, d["l"]) == 2)
+                if moved:
+                    # `x = x.saturating_sub(1)`: write the result where `x -= 1` writes it (same shape as the plain operator)
+                    first["rv"] = rv
+                else:
+                    blk["stmts"].append({"k": "Assign", "lhs": d, "rv": rv, "loc": t["loc"]})
                 blk["term"] = {"k": "Goto", "t": t["t"], "loc": t["loc"]}
                 n += 1
             _rebuild(facts, crate, b, j)
@@ -666,6 +903,7 @@ def apply(facts):
     apply_renames(facts, log)
     apply_inlining(facts, log)
     apply_arith_methods(facts, log)
+    apply_combinators(facts, log)
     facts.normalize_log = log
     return log
 
@@ -679,7 +917,11 @@ def gen_inventory(all_facts):
                 continue
             d = out.setdefault(crate.name, {})
             for b in fn_items(crate):
-                d.setdefault(b.path, {"name": b.name, "owner": owner_of(b), "sig": sig_of(b)})
+                e = d.setdefault(b.path, {"name": b.name, "owner": owner_of(b), "sig": sig_of(b)})
+                from collections import Counter
+                m = Counter(e.get("combfp", [])) | Counter(comb_fps(facts, crate, b))     # per fingerprint, the maximum over the configurations
+                if m:
+                    e["combfp"] = sorted(m.elements())
             ads = out.setdefault("__adts__", {})
             for dp, a in crate.adts.items():
                 if a.get("local"):
